@@ -1,8 +1,86 @@
 import PyresampleModel.Model.C05
+import PyresampleModel.Proofs.Compact
 
 /-
-  C05 — property theorems (stub: none yet).
+  C05 — property theorems for the dask/xarray nearest-neighbour path.
 -/
 namespace PyresampleModel.C05
+open PyresampleModel.C02
+
+theorem scatter_append {α} (fill : α) : ∀ (f1 f2 : List Bool) (v1 v2 : List α), v1.length = f1.count true →
+    scatter fill (f1 ++ f2) (v1 ++ v2) = scatter fill f1 v1 ++ scatter fill f2 v2 := by
+  intro f1
+  induction f1 with
+  | nil => intro f2 v1 v2 h; simp at h; subst h; simp [scatter]
+  | cons f fs ih =>
+    intro f2 v1 v2 h
+    cases f with
+    | false =>
+      simp only [List.cons_append, scatter]
+      rw [ih f2 v1 v2 (by simpa [List.count_cons] using h)]
+    | true =>
+      cases v1 with
+      | nil => simp at h
+      | cons v vs =>
+        simp only [List.cons_append, scatter]
+        rw [ih f2 vs v2 (by simp at h; omega)]
+
+/-- **the target chunking is invisible**: expanding the query results block by block, for any
+partition of the target into blocks, gives the expansion of the whole target -/
+theorem blockwise_invisible (n : Nat) : ∀ (blocks : List (List Bool × List Nat)),
+    (∀ b ∈ blocks, b.2.length = b.1.count true) →
+    expandBlocks n blocks = expandIdx n (blocks.flatMap (·.1)) (blocks.flatMap (·.2)) := by
+  intro blocks
+  induction blocks with
+  | nil => intro _; simp [expandBlocks, expandIdx, scatter]
+  | cons b bs ih =>
+    intro h
+    have hb := h b List.mem_cons_self
+    have := ih (fun c hc => h c (List.mem_cons_of_mem _ hc))
+    simp only [expandBlocks, List.flatMap_cons] at this ⊢
+    rw [this]
+    simp only [expandIdx, List.map_append]
+    rw [scatter_append _ _ _ _ _ (by simpa using hb)]
+
+theorem aux_scatter_map {α β} (f : α → β) (fill : α) : ∀ (fs : List Bool) (vs : List α),
+    (scatter fill fs vs).map f = scatter (f fill) fs (vs.map f) := by
+  intro fs
+  induction fs with
+  | nil => intro vs; simp [scatter]
+  | cons b bs ih =>
+    intro vs
+    cases b
+    · simp [scatter, ih]
+    · cases vs <;> simp [scatter, ih]
+
+/-- **the xarray path equals the numpy reference**: gathering through the re-expanded index array
+gives exactly what the numpy pipeline of C02 gives for the same query answers (every answer being
+either a position in the compacted valid sources or the sentinel `n_valid`) — hence, by
+`C02.nn_pipeline_correct`, the truly nearest valid source or fill -/
+theorem xarray_eq_numpy {α} (vii : List Bool) (data : List α) (voi : List Bool) (q : List Nat) (fill : α)
+    (hq : ∀ i ∈ q, i ≤ vii.count true) :
+    myIndex (expandIdx (vii.count true) voi q) vii data fill = pipelineNN vii data voi q fill := by
+  simp only [myIndex, expandIdx, pipelineNN, gatherNN]
+  rw [aux_scatter_map]
+  simp only [List.map_map]
+  congr 1
+  apply List.map_congr_left
+  intro i hi
+  have := hq i hi
+  simp only [Function.comp]
+  by_cases h : i < vii.count true
+  · have hne : i ≠ vii.count true := by omega
+    simp [h, hne]
+  · have : i = vii.count true := by omega
+    simp [this]
+
+/-- **non-geographic dimensions are pointwise**: the result for one extra-dimension slice depends
+on that slice of the data only -/
+theorem extra_dims_pointwise {α} (ia : List Int) (vii : List Bool) (slices : List (List α)) (fill : α) (k : Nat) :
+    (myIndexND ia vii slices fill)[k]? = (slices[k]?).map (fun d => myIndex ia vii d fill) := by
+  simp [myIndexND]
+
+example : myIndex (expandBlocks 2 [([true, false], [1]), ([true], [2])]) [true, false, true] [10, 20, 30] (-7) = [30, -7, -7] := by
+  decide
 
 end PyresampleModel.C05
